@@ -8,6 +8,8 @@ import (
 	"sync"
 
 	"github.com/NethermindEth/juno/blockchain"
+	"github.com/NethermindEth/juno/core"
+	"github.com/NethermindEth/juno/core/pending"
 	"verif/harness/lib"
 )
 
@@ -26,7 +28,7 @@ func (o Op) String() string {
 	case "revert":
 		return fmt.Sprintf("revert×%d", max(o.N, 1))
 	case "query":
-		return fmt.Sprintf("query{%s [%d,%d] chunk=%d limit=%d}", o.Q.F, o.Q.From, o.Q.To, o.Q.Chunk, o.Q.Limit)
+		return fmt.Sprintf("query{%s [%d%s,%d%s] chunk=%d limit=%d rpc=%v pre=%d}", o.Q.F, o.Q.From, o.Q.FromTag, o.Q.To, o.Q.ToTag, o.Q.Chunk, o.Q.Limit, o.Q.Rpc, len(o.Q.Pre))
 	}
 	return o.Kind
 }
@@ -256,14 +258,22 @@ func (w *World) checkState(after string) {
 }
 
 // checkTag compares a returned event with the stored block: hashes and payload.
-func (w *World) checkTag(fe blockchain.FilteredEvent) string {
+func (w *World) checkTag(fe blockchain.FilteredEvent, pre []*pending.PreConfirmed) string {
 	b := int(fe.BlockNumber)
-	if b >= len(w.Bundles) {
+	var blk *core.Block
+	switch {
+	case b < len(w.Bundles):
+		blk = w.Bundles[b].Block
+		if fe.BlockHash == nil || !fe.BlockHash.Equal(blk.Hash) {
+			return fmt.Sprintf("block hash of event in block %d differs from the canonical block's", b)
+		}
+	case b-len(w.Bundles) < len(pre):
+		blk = pre[b-len(w.Bundles)].Block
+		if fe.BlockHash != nil {
+			return fmt.Sprintf("event of pre-confirmed block %d carries a block hash", b)
+		}
+	default:
 		return fmt.Sprintf("event of block %d above the head", b)
-	}
-	blk := w.Bundles[b].Block
-	if fe.BlockHash == nil || !fe.BlockHash.Equal(blk.Hash) {
-		return fmt.Sprintf("block hash of event in block %d differs from the canonical block's", b)
 	}
 	t := int(fe.TransactionIndex)
 	if t >= len(blk.Receipts) {
@@ -298,15 +308,33 @@ const maxPages = 20000
 
 // runQuery pages through one query on the real node and on the model, compares page by page,
 // and checks the concatenation against the naive scan.
+func preLine(pre []*pending.PreConfirmed, plans []Plan) string {
+	if len(pre) == 0 {
+		return "-"
+	}
+	parts := make([]string, len(pre))
+	for i, p := range pre {
+		parts[i] = itemsLine(bloomItems(p.Block.EventsBloom)) + "@" + planLine(plans[i])
+	}
+	return strings.Join(parts, "+")
+}
+
 func (w *World) runQuery(q Q) {
 	w.ask("mark")
+	head := len(w.Chain) - 1
+	pre := w.mkPre(q.Pre)
+	fromB, toB := q.bounds(head)
+	if q.Rpc && (q.FromTag == "hash" && q.From > head || q.ToTag == "hash" && q.To > head) {
+		return // no such block to take the hash of: not a query
+	}
 	var all []Em
 	tok := ""
 	pages := 0
 	agree := true
 	fail := ""
+	rep := func() map[string]any { return map[string]any{"history": w.replay(), "query": q} }
 	for {
-		pg := realPage(w.Node, w, q, tok)
+		pg := realPage(w.Node, w, q, pre, tok)
 		mtok := "- -"
 		if tok != "" {
 			var b, p uint64
@@ -314,8 +342,8 @@ func (w *World) runQuery(q Q) {
 			mtok = fmt.Sprintf("%x %x", b, p)
 		}
 		if w.Drv != nil && !w.drvDead {
-			model := w.ask(fmt.Sprintf("q %s %x %x %s %x %x", strings.NewReplacer("A=", "", "K=", "").Replace(q.F.String()),
-				q.From, q.To, mtok, q.Chunk, q.Limit))
+			model := w.ask(fmt.Sprintf("qp %s %x %x %s %x %x %x %s", strings.NewReplacer("A=", "", "K=", "").Replace(q.F.String()),
+				fromB, toB, mtok, q.Chunk, q.Limit, head, preLine(pre, q.Pre)))
 			w.Res.Compared(1)
 			if model != pg.String() {
 				agree = false
@@ -328,35 +356,34 @@ func (w *World) runQuery(q Q) {
 			fail = "query-fails:" + pg.Err
 			w.Res.Violate(lib.Violation{Sig: "query-returns-error-" + pg.Err,
 				What:   fmt.Sprintf("%s page %d (token %q) of %v: %s", w.Name, pages, tok, q, pg.Bad),
-				Replay: map[string]any{"history": w.replay(), "query": q}})
+				Replay: rep()})
 			break
 		}
 		if pg.Bad != "" {
-			w.Res.Violate(lib.Violation{Sig: "event-tagged-wrongly", What: pg.Bad,
-				Replay: map[string]any{"history": w.replay(), "query": q}})
+			w.Res.Violate(lib.Violation{Sig: "event-tagged-wrongly", What: pg.Bad, Replay: rep()})
 		}
 		if len(pg.Ems) > q.Chunk {
 			w.Res.Violate(lib.Violation{Sig: "page-larger-than-chunk-size",
 				What:   fmt.Sprintf("%d events in a page of chunk size %d", len(pg.Ems), q.Chunk),
-				Replay: map[string]any{"history": w.replay(), "query": q}})
+				Replay: rep()})
 		}
 		all = append(all, pg.Ems...)
 		if pg.Tok == "" {
 			break
 		}
 		// token progress: each page returns an event or moves the token forward
-		if len(pg.Ems) == 0 && !tokLess(tok, q.From, pg.Tok) {
+		if len(pg.Ems) == 0 && !tokLess(tok, fromB, pg.Tok) {
 			fail = "no-progress"
 			w.Res.Violate(lib.Violation{Sig: "paging-makes-no-progress",
 				What:   fmt.Sprintf("page with token %q returned no event and token %q", tok, pg.Tok),
-				Replay: map[string]any{"history": w.replay(), "query": q}})
+				Replay: rep()})
 			break
 		}
 		if pages >= maxPages {
 			fail = "too-many-pages"
 			w.Res.Violate(lib.Violation{Sig: "paging-does-not-terminate",
 				What:   fmt.Sprintf("%d pages without reaching the empty token", pages),
-				Replay: map[string]any{"history": w.replay(), "query": q}})
+				Replay: rep()})
 			break
 		}
 		tok = pg.Tok
@@ -365,13 +392,22 @@ func (w *World) runQuery(q Q) {
 	if pages > 1 {
 		w.Res.Hit("query:multi-page")
 	}
+	if q.Rpc {
+		w.Res.Hit("query:via-rpc-handler")
+	}
+	if len(q.Pre) > 0 {
+		w.Res.Hit("query:with-pre-confirmed-blocks")
+	}
 	if fail != "" {
 		return
 	}
-	want := naive(w.Chain, q.F, q.From, q.To)
+	want := w.want(q)
 	w.Res.HitN("events-returned", len(all))
 	if len(want) > 0 {
 		w.Res.Hit("query:non-empty-answer")
+		if len(q.Pre) > 0 && want[len(want)-1].B > head {
+			w.Res.Hit("query:answer-includes-pre-confirmed-events")
+		}
 	}
 	if emsString(all) == emsString(want) {
 		return
@@ -379,11 +415,27 @@ func (w *World) runQuery(q Q) {
 	w.classify(q, all, want, agree)
 }
 
+// want is the oracle: the naive scan of the canonical chain followed by the pre-confirmed blocks.
+func (w *World) want(q Q) []Em {
+	lo, hi, empty := q.specRange(len(w.Chain) - 1)
+	if empty {
+		return nil
+	}
+	chain := w.Chain
+	if len(q.Pre) > 0 {
+		chain = append(append([]Plan{}, w.Chain...), q.Pre...)
+	}
+	return naive(chain, q.F, lo, hi)
+}
+
 // tokLess: does the token move strictly forward (block number)?
-func tokLess(prev string, from int, next string) bool {
+func tokLess(prev string, from uint64, next string) bool {
 	var pb, pp, nb, np uint64
 	if prev == "" {
-		pb = uint64(from)
+		pb = from
+		if from == sentinel {
+			pb = 0
+		}
 	} else {
 		fmt.Sscanf(prev, "%d-%d", &pb, &pp)
 	}
@@ -534,6 +586,10 @@ func newPool(path string, n int, base *World, res *lib.Result) *DrvPool {
 		}()
 	}
 	wg.Wait()
+	if len(p.ch) == 0 {
+		res.Mismatch(lib.Mismatch{Sig: "model-driver-unavailable", Input: path})
+		return nil
+	}
 	return p
 }
 
